@@ -129,7 +129,7 @@ def run(spec, case, overwrite, ctx=None):
                 else:
                     det.update(objs[0])
         except ValueError as e:
-            if (name == "CUSUM" and "Standard deviation is 0" in str(e)) or (name == "PCACD" and "bandwidth" in str(e)):
+            if cat.is_domain_end(name, det, e):
                 break
             raise Violation("unexpected-exception", f"{name}: ValueError {e} at call {i} (container {kinds[i]})", detector=name)
         for o, s_ in zip(objs, snaps):
